@@ -711,7 +711,7 @@ class Exec:
             if isinstance(v, VecV):
                 it = list(v.items)
                 it[p[1]] = self._update(it[p[1]], projs, i + 1, val)
-                return VecV(v.len, it, v.elem_ty)
+                return type(v)(v.len, it, v.elem_ty)   # keeps map models (subclasses of VecV) what they are
             if isinstance(v, Adt):
                 f = list(v.fields)
                 f[p[1]] = self._update(f[p[1]], projs, i + 1, val)
